@@ -17,6 +17,8 @@ CONSTANTS
   BitmapHonoursShallow = TRUE
   CgOctopusOk = TRUE
   MaxParents = 2
+  GraftsBeforeGraph = TRUE
+  IdxLargeFrom31 = TRUE
   CgHonoursShallow = TRUE
   Focus = "all"
 INVARIANT TypeOK
